@@ -7,7 +7,16 @@
      c07_tobuf  <script> <size>   asn_encode_to_buffer into <size> octets of a5
          -> ret=<n> errno=<E> oob=<0|1> buf=<hex> | ABORT <n>
      c07_newbuf <script> <j>      asn_encode_to_new_buffer, the j-th REALLOC failing (j<0: never)
-         -> ret=<n> errno=<E> buf=<hex|NULL> | ABORT <n> *)
+         -> ret=<n> errno=<E> buf=<hex|NULL> | ABORT <n>
+     c07_xer <can 0|1> <tag> <xv> <k>          asn_encode over the modelled XER encoder (Rt/XerEnc.v)
+         -> ret=<n> errno=<E> calls=<c> sizes=<s0,s1,..|-> hex=<delivered> | ABORT <n>
+     c07_xerfast <can> <tag> <xv>              the modelled encoder alone (xer_encode of Rt/XerEnc.v) with a collecting
+         callback of the driver (constant time per invocation; for values of thousands of chunks) -> as c07_xer with k < 0
+     c07_xer_tobuf <can> <tag> <xv> <size>     -> as c07_tobuf
+     c07_xer_newbuf <can> <tag> <xv>           -> as c07_newbuf
+   xv := B0 | B1 | N | I<decimal>; | O<hex>; | S{<name>:<xv>...} | C<name>:<xv> | X (CHOICE, nothing selected)
+       | M (NULL pointer) | Q<mode>{<xv>...} (SEQUENCE OF) | T<mode>{<xv>...} (SET OF)
+   mode := i<element name>: | v<element xml tag>: | c<element xml tag>:    (as_XMLValueList 0 / 1 / 2) *)
 open Model
 open Drvlib
 
@@ -24,6 +33,44 @@ let parse_script bits ending chunks : bool * script =
     if chunks = "-" then []
     else List.map (fun h -> if h = "e" then [] else bytes_of_hex h) (String.split_on_char ',' chunks) in
   (b, { chunks = cs; ending = e; on_cb_fail = IFail true })
+
+let zs_of_string (s : string) : z list = List.init (String.length s) (fun i -> cz_of_int (Char.code s.[i]))
+
+let parse_xv (s : string) : xv =
+  let pos = ref 0 in
+  let n = String.length s in
+  let peek () = if !pos < n then s.[!pos] else failwith "xv: truncated" in
+  let adv () = incr pos in
+  let until c =
+    let st = !pos in
+    while peek () <> c do adv () done;
+    let r = String.sub s st (!pos - st) in adv (); r in
+  let expect c = if peek () <> c then failwith "xv: syntax" else adv () in
+  let rec xv () =
+    let c = peek () in adv ();
+    match c with
+    | 'B' -> let b = peek () = '1' in adv (); XVBool b
+    | 'N' -> XVNull
+    | 'I' -> XVInt (cz_of_string (until ';'))
+    | 'O' -> let h = until ';' in XVOct (if h = "" then [] else bytes_of_hex h)
+    | 'S' -> expect '{';
+        let rec ms acc = if peek () = '}' then (adv (); List.rev acc)
+          else let nm = until ':' in let v = xv () in ms ((zs_of_string nm, v) :: acc) in
+        XVSeq (ms [])
+    | 'C' -> let nm = until ':' in let v = xv () in XVChoice (zs_of_string nm, v)
+    | 'X' -> XVChoiceNone
+    | 'M' -> XVMissing
+    | 'Q' | 'T' ->
+        let mc = peek () in adv ();
+        let nm = zs_of_string (until ':') in
+        let mode = (match mc with 'i' -> OfItems nm | 'v' -> OfValues nm | 'c' -> OfChoices nm | _ -> failwith "xv: mode") in
+        expect '{';
+        let rec vs acc = if peek () = '}' then (adv (); List.rev acc) else let v = xv () in vs (v :: acc) in
+        let l = vs [] in
+        if c = 'Q' then XVSeqOf (mode, l) else XVSetOf (mode, l)
+    | _ -> failwith "xv: syntax" in
+  let v = xv () in
+  if !pos <> n then failwith "xv: trailing" else v
 
 let hexcat (l : z list list) = hex_of_bytes (List.concat l)
 
@@ -50,6 +97,39 @@ let dispatch cmd args =
       let j = int_of_string j in
       let jo = if j < 0 then None else Some (nat_of_int j) in
       (match model_newbuf b sc jo with
+       | Done res ->
+           Some (Printf.sprintf "ret=%s errno=%s buf=%s" (string_of_cz res.nb_result.encoded) (errno_s res.nb_result.err)
+                   (match res.nb_buffer with Some bs -> hex_of_bytes bs | None -> "NULL"))
+       | Aborted n -> Some (Printf.sprintf "ABORT %d" (int_of_nat n)))
+  | "c07_xer", [can; tag; v; k] ->
+      let k = int_of_string k in
+      let ko = if k < 0 then None else Some (nat_of_int k) in
+      (match model_xer_encode (can = "1") (zs_of_string tag) (parse_xv v) ko with
+       | Done (((calls, acc)), r) ->
+           let sizes = if acc = [] then "-" else String.concat "," (List.map (fun c -> string_of_int (List.length c)) acc) in
+           Some (Printf.sprintf "ret=%s errno=%s calls=%d sizes=%s hex=%s" (string_of_cz r.encoded) (errno_s r.err) (int_of_nat calls) sizes (hexcat acc))
+       | Aborted n -> Some (Printf.sprintf "ABORT %d" (int_of_nat n)))
+  | "c07_xerfast", [can; tag; v] ->
+      (* the extracted encoder is polymorphic in the callback state (forall S); extraction erases S to Obj.t *)
+      let cb = (fun (st : Obj.t) (c : z list) -> (Obj.repr (c :: (Obj.obj st : z list list)), true)) in
+      let (st, r) = xer_encode (can = "1") (zs_of_string tag) (parse_xv v) cb (Obj.repr ([] : z list list)) in
+      let acc = List.rev (Obj.obj st : z list list) in
+      let sizes = if acc = [] then "-" else String.concat "," (List.map (fun c -> string_of_int (List.length c)) acc) in
+      let buf = Buffer.create 65536 in
+      List.iter (fun c -> List.iter (fun b -> Buffer.add_string buf (Printf.sprintf "%02x" (int_of_cz b land 0xff))) c) acc;
+      let hex = if Buffer.length buf = 0 then "-" else Buffer.contents buf in
+      (match r with
+       | Some n -> Some (Printf.sprintf "ret=%s errno=E0 calls=%d sizes=%s hex=%s" (string_of_cz n) (List.length acc) sizes hex)
+       | None -> Some (Printf.sprintf "ret=-1 errno=EBADF calls=%d sizes=%s hex=%s" (List.length acc) sizes hex))
+  | "c07_xer_tobuf", [can; tag; v; size] ->
+      let n = int_of_string size in
+      let mem = List.init n (fun _ -> cz_of_int 0xa5) in
+      (match model_xer_tobuf (can = "1") (zs_of_string tag) (parse_xv v) mem (cz_of_int n) with
+       | Done (st, r) ->
+           Some (Printf.sprintf "ret=%s errno=%s oob=%d buf=%s" (string_of_cz r.encoded) (errno_s r.err) (if st.o_oob then 1 else 0) (hex_of_bytes st.o_mem))
+       | Aborted n -> Some (Printf.sprintf "ABORT %d" (int_of_nat n)))
+  | "c07_xer_newbuf", [can; tag; v] ->
+      (match model_xer_newbuf (can = "1") (zs_of_string tag) (parse_xv v) with
        | Done res ->
            Some (Printf.sprintf "ret=%s errno=%s buf=%s" (string_of_cz res.nb_result.encoded) (errno_s res.nb_result.err)
                    (match res.nb_buffer with Some bs -> hex_of_bytes bs | None -> "NULL"))
